@@ -209,6 +209,7 @@ CORE_WEIGHTS = [
     ("delete", 17), ("delete_derived", 2), ("update", 6), ("add_base", 3), ("remove_base", 2),
     ("close", 1.5), ("new_model", 3), ("write_read", 2.5), ("reopen", 1.2), ("del_spec", 1.5),
     ("set_sheet", 2), ("set_path", 1.5), ("badname", 4), ("clash", 3), ("bind_dead", 2),
+    ("badtype", 2),
 ]
 
 
@@ -319,6 +320,17 @@ class Gen:
         else:
             op = self._pandas_op(i, s, self.owner(s), self.r.choice(REFNAMES), path=sp["path"], sheet=sp["sheet"])
         self._predict_create(i, op)
+        return op
+
+    def g_badtype(self, i):
+        """a creation the IO layer itself refuses (unsupported file type), mostly at a location nobody claims"""
+        s = self.slot()
+        if s is None:
+            return None
+        op = self._pandas_op(i, s, self.owner(s), self.r.choice(REFNAMES))
+        if self.b.same_file(s, op["path"]):
+            return None               # (a file already shared keeps its own type: the argument is not looked at)
+        op["badtype"] = True          # nothing is predicted: the creation must be refused
         return op
 
     def g_badname(self, i):
